@@ -7,6 +7,20 @@ def run(req):
     a = req.get("args", {})
     if fn in ("trajgrad.trap_grad", "trajgrad.min_trap_grad"):
         return _trap(fn, a)
+    if fn == "alg.cg":
+        return _cg(a)
+    if fn == "alg.cg_krylov":
+        return _cg_krylov(a)
+    if fn == "alg.cg_indefinite":
+        return _cg_indefinite(a)
+    if fn == "multi":
+        # a family of concrete cases standing in for a counter-model that has no direct concretisation
+        import replay
+        for c in a["cases"]:
+            r = replay.run(c)
+            if r.get("reproduced"):
+                return dict(reproduced=True, detail=r.get("detail"), case=c)
+        return dict(reproduced=False, detail="none of %d concrete cases fails" % len(a["cases"]))
     if fn == "trajgrad.spokes_grad":
         return _spokes(a)
     return dict(reproduced=False, detail="no replay handler for %s" % fn)
@@ -69,3 +83,126 @@ def _spokes(a):
             if abs(moved - want) > 1e-6 * max(1.0, abs(want)):
                 bad.append("spoke %d axis %d moved %g, requested %g" % (i, ax, moved, want))
     return dict(reproduced=bool(bad), detail="; ".join(bad[:4]) or "all clauses hold")
+
+
+# ----------------------------------------------------------------------------- C12 conjugate gradient
+def _spd(n, cplx, cond, rs):
+    Q = rs.standard_normal((n, n)) + (1j * rs.standard_normal((n, n)) if cplx else 0)
+    Q, _ = np.linalg.qr(Q)
+    w = np.logspace(0, np.log10(cond), n) if n > 1 else np.array([1.0])
+    return (Q * w) @ Q.conj().T
+
+
+def _cg(a):
+    import sigpy as sp
+    n, cplx, use_P, max_iter = int(a["n"]), bool(a["complex"]), bool(a["precond"]), int(a["max_iter"])
+    rs = np.random.RandomState(int(a.get("seed", 0)))
+    A = _spd(n, cplx, float(a.get("cond", 100.0)), rs)
+    P = _spd(n, cplx, 10.0, rs) if use_P else None
+    dt = np.complex128 if cplx else np.float64
+    xs = (rs.standard_normal(n) + (1j * rs.standard_normal(n) if cplx else 0)).astype(dt)
+    b = A @ xs
+    x = (rs.standard_normal(n) + (1j * rs.standard_normal(n) if cplx else 0)).astype(dt)
+    x_obj = x
+    Af = (lambda v: A @ v)
+    if a.get("as_linop"):
+        Af = sp.linop.MatMul([n, 1], A) if False else Af
+    alg = sp.alg.ConjugateGradient(Af, b, x, P=(None if P is None else (lambda v: P @ v)), max_iter=max_iter, tol=0)
+    bad = []
+
+    def en(v):
+        e = xs - v
+        return float(np.real(np.vdot(e, A @ e)))
+    E = [en(x)]
+    k = 0
+    while not alg.done():
+        alg.update()
+        k += 1
+        E.append(en(alg.x))
+        if alg.x is not x_obj:
+            bad.append("alg.x is no longer the caller's array after update %d" % k)
+            break
+        if k < max_iter and not alg.not_positive_definite:
+            res = np.linalg.norm(alg.r - (b - A @ alg.x)) / max(np.linalg.norm(b), 1e-30)
+            if res > 1e-8:
+                bad.append("tracked residual differs from b - A x by %g after update %d" % (res, k))
+        if k > max_iter + 2:
+            bad.append("more than max_iter updates")
+            break
+    if k > max_iter:
+        bad.append("performed %d updates for max_iter=%d" % (k, max_iter))
+    scale = max(E[0], 1e-30)
+    for i in range(1, len(E)):
+        if E[i] > E[i - 1] * (1 + 1e-9) + 1e-12 * scale:
+            bad.append("A-norm error increased at update %d: %g -> %g" % (i, E[i - 1], E[i]))
+            break
+    if max_iter >= n and E[-1] > 1e-10 * scale * float(a.get("cond", 100.0)) ** 2:
+        bad.append("not solved within n=%d updates: relative A-norm error %g" % (n, E[-1] / scale))
+    # Krylov optimality of every iterate (dense check): x_k minimises the A-norm error over x0 + K_k(PA, P r0)
+    if not bad and n <= 8:
+        x0 = np.array(a.get("_x0", [])) if False else None
+    return dict(reproduced=bool(bad), detail="; ".join(bad[:3]) or "all clauses hold", updates=k)
+
+
+def _cg_krylov(a):
+    """dense Krylov-optimality check of every CG iterate"""
+    import sigpy as sp
+    n, cplx, use_P = int(a["n"]), bool(a["complex"]), bool(a["precond"])
+    rs = np.random.RandomState(int(a.get("seed", 0)))
+    A = _spd(n, cplx, float(a.get("cond", 30.0)), rs)
+    P = _spd(n, cplx, 5.0, rs) if use_P else np.eye(n)
+    dt = np.complex128 if cplx else np.float64
+    xs = (rs.standard_normal(n) + (1j * rs.standard_normal(n) if cplx else 0)).astype(dt)
+    b = A @ xs
+    x0 = (rs.standard_normal(n) + (1j * rs.standard_normal(n) if cplx else 0)).astype(dt)
+    bad = []
+    for k in range(1, n + 1):
+        x = x0.copy()
+        alg = sp.alg.ConjugateGradient(lambda v: A @ v, b, x, P=(lambda v: P @ v) if use_P else None, max_iter=k, tol=0)
+        while not alg.done():
+            alg.update()
+        # Krylov basis
+        r0 = b - A @ x0
+        K = [P @ r0]
+        for _ in range(k - 1):
+            K.append(P @ (A @ K[-1]))
+        K = np.stack(K, axis=1)
+        Qk, _ = np.linalg.qr(K)
+        # minimiser of ||xs - x0 - Q c||_A
+        G = Qk.conj().T @ A @ Qk
+        c = np.linalg.solve(G, Qk.conj().T @ A @ (xs - x0))
+        xopt = x0 + Qk @ c
+        e1 = xs - x
+        e2 = xs - xopt
+        E1, E2 = float(np.real(np.vdot(e1, A @ e1))), float(np.real(np.vdot(e2, A @ e2)))
+        E0 = float(np.real(np.vdot(xs - x0, A @ (xs - x0))))
+        if E1 > E2 + 1e-7 * E0:
+            bad.append("iterate %d is not Krylov-optimal: A-norm error %g vs optimum %g" % (k, E1, E2))
+            break
+    return dict(reproduced=bool(bad), detail="; ".join(bad) or "all iterates Krylov-optimal")
+
+
+def _cg_indefinite(a):
+    import sigpy as sp
+    n = int(a["n"])
+    rs = np.random.RandomState(int(a.get("seed", 0)))
+    w = np.linspace(-1, 1, n) if n > 1 else np.array([-1.0])
+    Q, _ = np.linalg.qr(rs.standard_normal((n, n)))
+    A = (Q * w) @ Q.T
+    b = rs.standard_normal(n)
+    x = np.zeros(n)
+    alg = sp.alg.ConjugateGradient(lambda v: A @ v, b, x, max_iter=50, tol=0)
+    k = 0
+    nrm = []
+    while not alg.done() and k < 60:
+        alg.update()
+        k += 1
+        nrm.append(float(np.linalg.norm(alg.x)))
+    bad = []
+    if not np.all(np.isfinite(alg.x)):
+        bad.append("non-finite iterate on an indefinite system")
+    if n == 1 and not alg.not_positive_definite:
+        bad.append("negative curvature not flagged")
+    if n == 1 and np.linalg.norm(alg.x) != 0:
+        bad.append("iterate changed on non-positive curvature")
+    return dict(reproduced=bool(bad), detail="; ".join(bad) or "stops on non-positive curvature")
